@@ -22,6 +22,27 @@ import logging
 logger = logging.getLogger(__name__)
 
 
+class _ReloadedInfo(Info):
+
+    """
+    An :class:`Info` that has no font drops the font guidelines that
+    are stored in fontinfo.plist. This one keeps what was read, so
+    that :py:meth:`Font.reloadInfo` can reload the guidelines as well.
+    """
+
+    def __init__(self):
+        super(_ReloadedInfo, self).__init__()
+        self._reloadedGuidelines = []
+
+    def _get_guidelines(self):
+        return self._reloadedGuidelines
+
+    def _set_guidelines(self, value):
+        self._reloadedGuidelines = list(value or [])
+
+    guidelines = property(_get_guidelines, _set_guidelines)
+
+
 class Font(BaseObject):
 
     r"""
@@ -1479,7 +1500,7 @@ class Font(BaseObject):
             obj = self.info
         else:
             with UFOReader(self.path, validate=False) as reader:
-                newInfo = Info()
+                newInfo = _ReloadedInfo()
                 reader.readInfo(newInfo, validate=self._info.ufoLibReadValidate)
                 oldInfo = self._info
                 for attr in dir(newInfo):
